@@ -11,11 +11,11 @@ CHECKS = {
     'C02': dict(
         category='other',
         text='Bounded symbolic execution: the real update_nodes/integrate/compute_end_point of generic_implicit, explicit, imex_1st_order, '
-             'imex_1st_order_mass, multi_implicit, verlet, the linear multistep sweepers, all Runge-Kutta classes and QDiagonalization run on z3 terms with u0, node values, tau, dt and '
+             'imex_1st_order_mass, multi_implicit, verlet, boris_2nd_order (harness problem without magnetic field), Runge-Kutta-Nystrom (RKN), the DAE project sweepers (linear index-1 DAE, axiomatic solve through the real system function), the linear multistep sweepers, all Runge-Kutta classes and QDiagonalization run on z3 terms with u0, node values, tau, dt and '
              'problem coefficients free; per configuration and clause one SMT validity query shows the result equals the algebraic iteration for '
              'every value of those variables. Configurations (node set, preconditioner name, sweep index) are enumerated within the stated bounds.',
         note='Trusted: z3; reals stand for floats on the data path; the stub problems (exact linear solve); qmat as oracle for the tables the spec is stated against. '
-             'Outside: boris, RK-Nystrom, DAE sweepers, nonlinear problems, M > 6.',
+             'Preconditioner tables are compared with fresh qmat generators for every ordered pair of names requested on one sweeper instance. Outside: magnetic-field rotation of the Boris solver (problem class), the implicit Velocity_Verlet Nystrom tableau, nonlinear problems, M > 6.',
         design='4/C02', technique='symbolic execution of real sweeper code + SMT (QF_NRA) validity queries',
     ),
     'C03': dict(
@@ -135,8 +135,8 @@ CHECKS = {
     'C17': dict(
         category='other',
         text='Weak fit, reduced scope: operator matrices of ChebychevHelper / UltrasphericalHelper / FFTHelper (differentiation p<=3, integration, basis conversions and inverses, Dirichlet/Neumann/integral rows, integration weights, Kronecker expansion) for N=2..8(16), '
-             'reference and mapped intervals: per operator one SMT query over all coefficient vectors in the unit box against exact polynomial calculus in the monomial basis (T_n, U_n, Gegenbauer by exact recurrences - not the implementation formulas).',
-        note='Trusted: z3; tolerance 1e-10 scaled. NOT claimed: DCT/FFT transform round trips (C boundary), N>16. Fourier operators: analytic wavenumbers (float pi) plus formula-free inverse and covariance relations. Known finding: N = 1 raises.',
+             'reference and mapped intervals: per operator one SMT query over all coefficient vectors in the unit box against exact polynomial calculus in the monomial basis (T_n, U_n, Gegenbauer by exact recurrences - not the implementation formulas). Transforms: the matrices of the real transform / itransform (read off by unit vectors) are inverse to each other and map grid values of a Chebyshev series to its coefficients (solver, all data); Fourier synthesis = modes.',
+        note='Trusted: z3; tolerance 1e-10 scaled. NOT claimed: multi-dimensional / padded transforms, N>16. Fourier operators: analytic wavenumbers (float pi) plus formula-free inverse and covariance relations. Known finding: N = 1 raises.',
         design='4/C17', technique='tables from the real code as exact rationals + SMT (QF_LRA) against exact monomial-basis calculus',
     ),
     'C18': dict(
